@@ -91,6 +91,7 @@ fn run_k(p: &Pair, k: u32, reexec: bool) -> KOut {
     apply_prefix(&mut map, &p.prefix);
     let kinds = p.init.kinds;
     let pre = map.snapshot(kinds);
+    let pre_derived = map.derived();
     let mut call = p.call.clone();
     call.f1 = if k > 0 { vec![k] } else { vec![] };
     call.f2 = if reexec { vec![0] } else { vec![] };
@@ -104,7 +105,14 @@ fn run_k(p: &Pair, k: u32, reexec: bool) -> KOut {
         TxValue::Err(_, e) => (true, e.clone()),
         TxValue::Abandoned => (true, "Abandoned".into()),
     };
-    let changed = if is_err && post != pre { Some(post.diff(&pre)) } else { None };
+    let post_derived = map.derived();
+    let changed = if is_err && post != pre {
+        Some(post.diff(&pre))
+    } else if is_err && post_derived != pre_derived {
+        Some(format!("the map's own counters (darts, removed darts, vertices) changed from {pre_derived:?} to {post_derived:?}"))
+    } else {
+        None
+    };
     KOut { k, value_is_err: is_err, err, changed, callbacks: out.callbacks, rejections: out.rejections, wrote_before_error: is_err && k > 1, attempts: out.attempts }
 }
 
